@@ -1,13 +1,21 @@
 """Child-interpreter worker for the lattice properties (C07 / C08): computes the published matrices of the requested
-codes in THIS interpreter (started by harness/lat_common.py with other interpreter options, e.g. `python -O`) and
-prints one JSON line per code: n_k_d, a digest of (stabilizers, logical_xs, logical_zs), optionally the rows (hex).
+codes in THIS interpreter (started by harness/lat_common.py with other interpreter options, e.g. `python -O`, and / or
+another LOGGING CONFIGURATION of the process) and prints one JSON line per code: n_k_d, a digest of (stabilizers,
+logical_xs, logical_zs), optionally the rows (hex).
 Stand-alone on purpose (imports only qecsim + numpy; no `assert` statements - they would be stripped under -O).
 
-stdin : one JSON document {"rows": bool, "codes": [[family, [args...]], ...]}
-stdout: first line {"flags": {...}}; then per code {"family":..,"args":..,"n_k_d":..,"digest":..,"rows":{..}} or {"error":..}"""
+stdin : one JSON document {"rows": bool, "codes": [[family, [args...]], ...], "logging": null | {"target": "root" |
+        "qecsim" | "ini", "level": "DEBUG" | "INFO"}}
+        logging target root / qecsim: that logger gets the level and a handler that FORMATS every record and prints
+        nothing; ini: qecsim.util.init_logging() as the command line does (the caller points $QECSIM_CFG at a directory
+        with a logging_qecsim.ini), before any code is constructed
+stdout: first line {"flags": {...}}; then per code {"family":..,"args":..,"n_k_d":..,"digest":..,"rows":{..}} or {"error":..};
+        with a logging configuration a last line {"log_records": number of records formatted}"""
 import hashlib
 import json
 import sys
+
+import logging
 
 import numpy as np
 
@@ -43,10 +51,36 @@ def matrix_digest(mats):
     return h.hexdigest()
 
 
+class Formatting(logging.Handler):
+    """formats every record it is given (as a stream handler would) and prints nothing"""
+    records = 0
+
+    def emit(self, record):
+        self.format(record)
+        Formatting.records += 1
+
+
+def configure_logging(cfg):
+    if not cfg:
+        return None
+    level = getattr(logging, cfg['level'])
+    if cfg['target'] == 'ini':
+        from qecsim import util
+        util.init_logging()
+    else:
+        lg = logging.getLogger() if cfg['target'] == 'root' else logging.getLogger(cfg['target'])
+        lg.setLevel(level)
+        lg.addHandler(Formatting())
+    probe = logging.getLogger('qecsim.models.harness_probe')
+    return {'target': cfg['target'], 'level': cfg['level'], 'enabled_for_level': bool(probe.isEnabledFor(level)),
+            'enabled_below': bool(probe.isEnabledFor(level - 10))}
+
+
 def main():
     spec = json.load(sys.stdin)
+    log = configure_logging(spec.get('logging'))
     cls = classes()
-    print(json.dumps({'flags': {'optimize': sys.flags.optimize, 'debug': bool(__debug__)}}))
+    print(json.dumps({'flags': {'optimize': sys.flags.optimize, 'debug': bool(__debug__), 'logging': log}}))
     for fam, args in spec['codes']:
         rec = {'family': fam, 'args': args}
         try:
@@ -66,6 +100,8 @@ def main():
         except Exception as e:  # noqa
             rec['error'] = '%s: %s' % (type(e).__name__, str(e)[:200])
         print(json.dumps(rec))
+    if log:
+        print(json.dumps({'log_records': Formatting.records}))
     sys.stdout.flush()
 
 
